@@ -42,6 +42,9 @@ type chanSpec struct {
 	// returned channel (IdxRef >= 0: its local key is used).
 	Idx     uint32 `json:"idx"`
 	IdxName string `json:"idx_name"` // non-empty: local key of the live channel of that name
+	// KeyName non-empty: the request entry carries the local key of the live channel of that
+	// name (re-submission of an existing channel WITH its key, as clients do for updates)
+	KeyName string `json:"key_name"`
 	Virtual bool   `json:"virtual"`
 	Expr    string `json:"expr"`
 }
@@ -111,6 +114,7 @@ type stepOut struct {
 	ErrText  string               `json:"err_text"`
 	Keys     []uint32             `json:"keys"`  // resolved keys the op was issued with
 	Idx      []uint32             `json:"idx"`   // create: resolved local index per channel
+	LKeys    []uint32             `json:"lkeys"` // create: resolved local key per channel (0 = none)
 	Ret      []chanOut            `json:"ret"`   // create: the channels handed back
 	Meta     []chanOut            `json:"meta"`  // metadata (sorted by key) once all nodes agree
 	Agree    bool                 `json:"agree"` // all nodes returned the same metadata
@@ -371,7 +375,20 @@ func (cl *clusterT) resolve(o op) []uint32 {
 				for _, b := range []byte(o.By[i]) {
 					h = h*31 + int(b)
 				}
-				k = live[h%len(live)].Key
+				// ... one that this request does not name already, if there is one
+				for j := 0; j < len(live); j++ {
+					cand := live[(h+j)%len(live)].Key
+					dup := false
+					for _, prev := range out {
+						if prev == cand {
+							dup = true
+						}
+					}
+					k = cand
+					if !dup {
+						break
+					}
+				}
 			}
 		} else if i < len(o.Dead) && o.Dead[i] >= 0 && len(cl.deleted) > 0 {
 			k = cl.deleted[o.Dead[i]%len(cl.deleted)]
@@ -408,9 +425,17 @@ func (cl *clusterT) run(o op) (st stepOut) {
 				}
 			}
 			st.Idx = append(st.Idx, idx)
+			lkey := uint32(0)
+			if s.KeyName != "" {
+				if c, ok := cl.byName(s.KeyName); ok {
+					lkey = c.LocalKey
+				}
+			}
+			st.LKeys = append(st.LKeys, lkey)
 			chs = append(chs, channel.Channel{
 				Name: s.Name, Leaseholder: node.Key(s.Lease), DataType: telem.DataType(s.DT), IsIndex: s.IsIndex,
 				LocalIndex: channel.LocalKey(idx), Virtual: s.Virtual, Expression: s.Expr,
+				LocalKey: channel.LocalKey(lkey),
 			})
 		}
 		var opts []channel.CreateOption
